@@ -7,7 +7,7 @@ from . import e1_model as e1
 from . import e2_regex as e2
 from .e3_values import *   # noqa
 from .e3_values import INF
-from .e3_state import State, Issue, Effect
+from .e3_state import State, Issue, Effect, merge_states
 from .e3_interp import (Interp as _Base, Raised, PathLimit, exc_matches, join_vals, ABS_KEYS,
                         REL_KEYS, TD_KEYS, DT_RANGES, MAX_DEPTH)
 
@@ -863,7 +863,7 @@ class Interp(_Base):
                         nxt.append(s2)
                     else:
                         done.append((s2, oc))
-            states = nxt
+            states = merge_states(nxt) if len(nxt) > 1 else nxt
             if not states:
                 break
         return done + [(s, ("next",)) for s in states]
@@ -1094,7 +1094,7 @@ class Interp(_Base):
                                 out.append((s3, ("next",)))   # orelse skipped
                             else:
                                 out.append((s3, oc3))
-                states = nxt
+                states = merge_states(nxt) if len(nxt) > 1 else nxt
                 if not states:
                     break
             for s1 in states:
